@@ -46,12 +46,13 @@ LabelProblem(e, t) ==
   ELSE IF t.layer # e.layer \/ t.dt # e.label THEN "prop:label-on-wrong-layer-or-purpose"
   ELSE IF ~InsideShape(t.at, e) THEN "prop:label-outside-its-shape"
   ELSE ""
+NormAngle(a) == IF a < 0 THEN 0 ELSE a % 360          \* -1 stands for "no angle given" = 0 degrees
 InstProblem(i, g) ==
   IF g.k # "sref" THEN "instance-not-exported-as-SREF"
   ELSE IF g.name # i.cell THEN "prop:wrong-target-cell"
   ELSE IF g.at # i.loc THEN "prop:wrong-location"
   ELSE IF g.refl # i.refl THEN "prop:reflection-differs"
-  ELSE IF (g.angle % 360) # (i.angle % 360) THEN "prop:angle-differs"
+  ELSE IF NormAngle(g.angle) # NormAngle(i.angle) THEN "prop:angle-differs"
   ELSE ""
 
 First(ps) == IF \E i \in 1..Len(ps) : ps[i] # "" THEN ps[CHOOSE i \in 1..Len(ps) : ps[i] # "" /\ \A j \in 1..(i-1) : ps[j] = ""] ELSE ""
